@@ -4,11 +4,14 @@ package cli
 
 import (
 	"bufio"
+	"bytes"
 	"encoding/json"
 	"fmt"
 	"os"
 	"os/exec"
 	"path/filepath"
+	"strings"
+	"time"
 )
 
 type Resp struct {
@@ -18,10 +21,11 @@ type Resp struct {
 }
 
 type Server struct {
-	cmd *exec.Cmd
-	enc *json.Encoder
-	dec *json.Decoder
-	w   *bufio.Writer
+	cmd    *exec.Cmd
+	enc    *json.Encoder
+	dec    *json.Decoder
+	w      *bufio.Writer
+	stderr *bytes.Buffer
 }
 
 func root() string {
@@ -43,39 +47,88 @@ func PlainPath() string  { return filepath.Join(binDir(), "univers") }
 
 // Start launches the server binary.
 func Start() (*Server, error) {
+	s := &Server{}
+	if err := s.start(); err != nil {
+		return nil, err
+	}
+	return s, nil
+}
+
+func (s *Server) start() error {
 	cmd := exec.Command(ServerPath())
 	cmd.Env = append(os.Environ(), "VERIF_CLI_SERVER=1")
 	in, err := cmd.StdinPipe()
 	if err != nil {
-		return nil, err
+		return err
 	}
 	out, err := cmd.StdoutPipe()
 	if err != nil {
-		return nil, err
+		return err
 	}
-	cmd.Stderr = os.Stderr
+	s.stderr = &bytes.Buffer{}
+	cmd.Stderr = s.stderr
 	if err := cmd.Start(); err != nil {
-		return nil, err
+		return err
 	}
 	w := bufio.NewWriterSize(in, 1<<16)
-	return &Server{cmd: cmd, enc: json.NewEncoder(w), dec: json.NewDecoder(bufio.NewReaderSize(out, 1<<16)), w: w}, nil
+	s.cmd, s.enc, s.dec, s.w = cmd, json.NewEncoder(w), json.NewDecoder(bufio.NewReaderSize(out, 1<<16)), w
+	return nil
 }
 
+// CallTimeout bounds one call. A command line that the CLI answers in well under a millisecond
+// and that has not been answered after a minute is a hang (or a deadlock the runtime did not
+// see); the limit is far from any load effect and only turns "never" into an answer.
+var CallTimeout = 60 * time.Second
+
+// Call runs one argv vector through the CLI's run(). If the server process dies on it (a fatal
+// runtime error such as "all goroutines are asleep", os.Exit inside run) or does not answer,
+// that is a finding about this argv: it is returned as Resp.Panic, and a fresh server is
+// started for the following calls.
 func (s *Server) Call(argv []string) (Resp, error) {
 	if argv == nil {
 		argv = []string{}
 	}
-	if err := s.enc.Encode(map[string]any{"argv": argv}); err != nil {
-		return Resp{}, err
+	type result struct {
+		r   Resp
+		err error
 	}
-	if err := s.w.Flush(); err != nil {
-		return Resp{}, err
+	done := make(chan result, 1)
+	go func() {
+		if err := s.enc.Encode(map[string]any{"argv": argv}); err != nil {
+			done <- result{err: err}
+			return
+		}
+		if err := s.w.Flush(); err != nil {
+			done <- result{err: err}
+			return
+		}
+		var r Resp
+		err := s.dec.Decode(&r)
+		done <- result{r, err}
+	}()
+	var why string
+	select {
+	case res := <-done:
+		if res.err == nil {
+			return res.r, nil
+		}
+		s.cmd.Process.Kill()
+		s.cmd.Wait()
+		tail := s.stderr.String()
+		if len(tail) > 300 {
+			tail = tail[:300]
+		}
+		why = "the CLI process died on this command line: " + strings.ReplaceAll(strings.TrimSpace(tail), "\n", " / ")
+	case <-time.After(CallTimeout):
+		s.cmd.Process.Kill()
+		s.cmd.Wait()
+		<-done
+		why = fmt.Sprintf("no answer within %s (hang)", CallTimeout)
 	}
-	var r Resp
-	if err := s.dec.Decode(&r); err != nil {
-		return Resp{}, fmt.Errorf("cli server died: %w", err)
+	if err := s.start(); err != nil {
+		return Resp{}, fmt.Errorf("cli server died and could not be restarted: %w", err)
 	}
-	return r, nil
+	return Resp{Code: -1, Panic: why}, nil
 }
 
 func (s *Server) Close() {
